@@ -217,12 +217,15 @@ def install(E):
                 E.store(st, q, ir.intT(8 * sz), int.from_bytes(b"\x5a" * sz, "little"))
         return None
 
-    @reg("vf_same_scalars")
+    @reg("vf_same_scalars", "vf_same_scalars_except")
     def vf_same_scalars(E, st, fr, ins, a):
         lab = E.cstring(st, a[0]).decode()
         tname = E.cstring(st, a[3]).decode()
+        skip = tuple(x for x in E.cstring(st, a[4]).decode().split("|") if x) if len(a) > 4 else ()
         bad = []
         for o, sz, kd, nm in leaves(E, tname):
+            if skip and nm.startswith(skip):
+                continue
             pa, pb = Ptr(a[1].obj, E.padd(a[1].off, o)), Ptr(a[2].obj, E.padd(a[2].off, o))
             ty = ir.I8P if kd == "p" else (ir.DOUBLE if sz == 8 else ir.FLOAT) if kd == "d" else ir.intT(8 * sz)
             try:
